@@ -9,6 +9,7 @@ case = {
   'act':   {'k':'program','p':PROGRAM} | {'k':'file',..} | {'k':'source',..} | {'k':'null',..} | None,
   'phases': {'setup'|'before-assert'|'assert'|'cleanup': [INSTR]},
   'claims': [ {'what':'exit'|'stdout'|'stderr','v':..,'via':..} ]    first in [assert], about the action to check
+  'act_home': None | 'ah'      [conf] act-home = ah  (a separate directory with marked copies of the data files)
 }
 PROGRAM = {'head': {'k':'sys'|'py'|'exe'|'shell'|'sym', 'cfg':{exit,stdout,stderr} | 'n':name | 'sh':SHELL, 'variant'},
            'args':[ARG], 'last': None|{'k':'eol','pieces'}|{'k':'here','lines'}, 'cont': int|None,
@@ -403,6 +404,9 @@ def _fix_act_here_docs(obj):
             _fix_act_here_docs(v)
 
 
+act_home = st.sampled_from([None, None, 'ah'])
+
+
 def finish_case(case, symvals, tsymvals):
     if case.get('act') and case['act']['k'] == 'program':
         _fix_act_here_docs(case['act']['p'])
@@ -436,6 +440,7 @@ def act_command_case(draw):
         'phases': {'setup': draw(st.lists(cd_instr, max_size=2)) if draw(st.integers(0, 2)) == 0 else []},
         'claims': draw(claims),
     }
+    case['act_home'] = draw(act_home)
     return finish_case(case, symvals, tsymvals)
 
 
@@ -470,7 +475,7 @@ def interpreter_case(draw):
         else:
             act['pyargs'] = draw(st.lists(arg_value, max_size=3))
     if kind in ('file', 'source'):
-        act['via'] = draw(st.sampled_from(['conf', 'suite', 'cli', 'cli'] if kind == 'source' else
+        act['via'] = draw(st.sampled_from(['cli', 'conf', 'suite'] if kind == 'source' else
                                           ['conf', 'conf', 'suite']))
         if act['via'] == 'cli' and 'iargs' in act:
             # --actor COMMAND-LINE: shell syntax, no symbols
@@ -491,6 +496,7 @@ def interpreter_case(draw):
         'phases': {'setup': draw(st.lists(cd_instr, max_size=1))},
         'claims': draw(claims),
     }
+    case['act_home'] = draw(act_home)
     return finish_case(case, symvals, tsymvals)
 
 
@@ -559,6 +565,7 @@ def instruction_case(draw):
     case = {'files': draw(files_strategy), 'pgms': pgms, 'act': act,
             'setup_stdin': draw(st.one_of(st.none(), st.none(), text_source(1))) if act else None,
             'phases': phases, 'claims': draw(claims) if act and draw(st.booleans()) else []}
+    case['act_home'] = draw(act_home)
     return finish_case(case, symvals, tsymvals)
 
 
@@ -576,6 +583,7 @@ def shell_case(draw):
             'act': {'k': 'program', 'p': ch['use'], 'explicit_actor': draw(st.booleans())},
             'setup_stdin': draw(st.one_of(st.none(), text_source(1))),
             'phases': phases, 'claims': draw(claims)}
+    case['act_home'] = draw(act_home)
     return finish_case(case, symvals, tsymvals)
 
 
